@@ -3,6 +3,7 @@
 # Applies a patch to a scratch copy of /repo (never to /repo), optionally runs the pinned
 # suite on it, runs one check against it, and removes the copy.
 set -u
+mkdir -p /root/scratch
 PATCH="$(readlink -f "$1")"; ID="$2"; TIER="${3:-quick}"
 export GOFLAGS=-mod=mod GOPROXY=off GOSUMDB=off GOTOOLCHAIN=local
 S=$(mktemp -d /root/scratch/mut.XXXXXX)
